@@ -63,7 +63,12 @@ class InfraError(Exception):
 # PRNG: one splitmix64 stream per run; every random choice derives from it
 class Rng:
     def __init__(self, seed):
-        self.s = (seed * 0x9E3779B97F4A7C15 + 0x1234567) & 0xFFFFFFFFFFFFFFFF
+        # the start state is a *mixed* function of the seed: with state = seed * gamma + c the streams of neighbouring seeds were
+        # the same orbit shifted by one draw (noticed when seeds 1 and 2 produced the same late cases)
+        z = (seed * 0x9E3779B97F4A7C15 + 0x1234567) & 0xFFFFFFFFFFFFFFFF
+        z = ((z ^ (z >> 30)) * 0xBF58476D1CE4E5B9) & 0xFFFFFFFFFFFFFFFF
+        z = ((z ^ (z >> 27)) * 0x94D049BB133111EB) & 0xFFFFFFFFFFFFFFFF
+        self.s = (z ^ (z >> 31)) & 0xFFFFFFFFFFFFFFFF
 
     def next(self):
         self.s = (self.s + 0x9E3779B97F4A7C15) & 0xFFFFFFFFFFFFFFFF
